@@ -1,3 +1,3 @@
-import PybtexModel.Model.Basic
+import PybtexModel.Model.Template
 namespace Pybtex.Props
 end Pybtex.Props
